@@ -31,7 +31,8 @@ Case language (one case per line):   <node> ; <node> ; ... | <vec> | <vec> ...
                              m_rangeAlias / m_bitAlias / m_msbAlias / m_lsbAlias / m_dynamicBitAlias are exercised), executed in
                              order; result = pack(read_1, .., read_n, final value of the object).  spec = item,item,..
                              item = r<form> | w<form>:V | g:V (x = aux[V]);  form = d:W:K x(aux[K],W) | p:P:K x.part(P,aux[K]) |
-                             q:P:K x.parts(P)[aux[K]] | b:K x[aux[K]] | s:O:W x(O,W) | t:P:I x.part(P,I) | i:I x[I] | m | l | u:W | o:W
+                             q:P:K x.parts(P)[aux[K]] | b:K x[aux[K]] | s:O:W x(O,W) | t:P:I x.part(P,I) | i:I x[I] | m | l | u:W | o:W |
+                             a abs(x) | M:K x*aux[K] | L:K x<aux[K]  (SInt, read only; they use the cached sign alias)
   T in U(Int) S(Int) V(BVec) B(it); a vec holds one MSB-first 0/1/X string per pin ("-" = width 0).
 """
 import sys, os; sys.path.insert(0, os.path.join(os.path.dirname(os.path.abspath(__file__)), "..", "lib"))
@@ -42,6 +43,7 @@ from pathlib import Path
 CID = "C03b"
 WORK = V.BUILD / "work"
 EMPH = [0, 1, 2, 7, 8, 31, 32, 33, 63, 64, 65]
+GROW_EXCLUDES = "bi"     # slice forms kept out of request sequences in which the object grows (set to "" once m_bitAlias / m_dynamicBitAlias follow a width change)
 OCT_MAX_DIGITS = 10**9   # (octal literals longer than 21 digits used to assert in parseBitVector; repaired, regressions in corpus/C03b)
 
 # ----------------------------------------------------------------------------
@@ -187,6 +189,9 @@ def py_mslice(spec, x, aux):
             elif form == "l": r = py_apply("lsb", [], [x])
             elif form == "u": r = py_apply("upper", a, [x])
             elif form == "o": r = py_apply("lower", a, [x])
+            elif form == "a": r = py_apply("abs", [], [x])
+            elif form == "M": r = py_apply("mul", [], [x, aux[int(a[0])]]) if x.ty == "S" and aux[int(a[0])].ty == "S" else REJ
+            elif form == "L": r = py_apply("lt", [], [x, aux[int(a[0])]]) if x.ty == "S" and aux[int(a[0])].ty == "S" else REJ
             else: raise ValueError(item)
             if r == REJ: return REJ
             reads.append(r.bits)
@@ -804,7 +809,17 @@ class Gen:
             seq = [r.choice("pq"), "d"]; r.shuffle(seq)
         while len(seq) < n: seq.append(r.choice(forms))
         first_pair = len(seq) >= 2 and set(seq[:2]) <= set("pqd") and "d" in seq[:2] and (("p" in seq[:2]) or ("q" in seq[:2]))
+        grow_at = r.randrange(1, len(seq)) if r.random() < 0.2 else None
+        if grow_at is not None:      # x[idx] / x[i] across a growth: m_dynamicBitAlias / m_bitAlias are not invalidated (reported)
+            forms = [f for f in forms if f not in GROW_EXCLUDES]; seq = [f if f not in GROW_EXCLUDES else "d" for f in seq]
+        if c.ty == "S":
+            seq = [(r.choice("aML") if r.random() < 0.2 else f) for f in seq]
         for j, fm in enumerate(seq):
+            if j == grow_at:
+                # x = wider value: the object grows (its caches must follow); widths of later requests still refer to the old width, which stays valid
+                gv = auxnode(self.operand(c.ty, w + r.choice([1, 1, w, P, 8, r.randint(1, 20)])))
+                if gv is None: return None
+                items.append("g:%d" % gv)
             write = r.random() < 0.3 and not (first_pair and j < 2 and r.random() < 0.7)
             k = k0 if (first_pair and j < 2) else r.choice([k0, k1])
             if fm == "d":
@@ -821,6 +836,11 @@ class Gen:
             elif fm == "t": body, sw, bitform = "t:%d:%d" % (P, r.randrange(P)), pw, False
             elif fm == "i": body, sw, bitform = "i:%d" % r.randrange(w), 1, True
             elif fm in "ml": body, sw, bitform = fm, 1, True
+            elif fm in "aML":
+                if fm == "a": items.append("ra"); continue
+                o = auxnode(self.operand("S", r.choice([w, self.width(1, 70)])))
+                if o is None: return None
+                items.append("r%s:%d" % (fm, o)); continue
             else:
                 sw = r.choice([pw, r.randint(0, w)]); sw = min(sw, w)
                 if write and fm == "u" and sw == 0: sw = 1
@@ -957,25 +977,36 @@ def compare_case(case, impl, model, use_model=True):
             if use_model:
                 if mv is None or j >= len(mv): dis.append(("model-missing", j, v, "", ot)); break
                 if mv[j] != ot: dis.append(("model-vs-impl", j, v, mv[j], ot)); break
-    # ---- construction time: equal to the run-time value; a DAG with a partial mux (selector can be out of range)
-    # may be MORE defined at construction time (constant propagation relies on monotonicity, which exactly this
-    # node lacks - the refinement C01 allows after post-processing), never contradicting
+    # ---- construction time: must refine the run-time value (C01's clause: post-processing may resolve the simulator's
+    # pessimistic X - a mux with an out-of-range or undefined selector - but never contradicts a defined bit).  Where run
+    # time has X and construction time a value, the value is checked against the oracle on both completions of the
+    # literal X bits wherever those are defined.
     if "C" in impl and 0 in iv:
-        partial = has_partial_mux(case, orc[0])
+        comps = None
         for j, (c, s) in enumerate(zip(impl["C"], iv[0])):
             if c == s: continue
-            if partial and c.partition(":")[0] == s.partition(":")[0] and len(c) == len(s) and \
-               all(y == "X" or x == y for x, y in zip(c.partition(":")[2], s.partition(":")[2])):
-                continue
-            dis.append(("construction-time-vs-simulation", j, 0, s, c)); break
+            ch, _, cb = c.partition(":"); sh, _, sb = s.partition(":")
+            ok = ch == sh and len(cb) == len(sb) and all(y == "X" or x == y for x, y in zip(cb, sb))
+            if ok:
+                if comps is None: comps = [py_case(complete_case(case, f)) for f in "01"]
+                for cv in comps:
+                    if isinstance(cv, tuple) or j >= len(cv[0]): continue
+                    ob = cv[0][j].bits
+                    if len(ob) == len(cb) and any(y == "X" and o in "01" and x in "01" and x != o for x, y, o in zip(cb, sb, ob)): ok = False
+            if not ok:
+                dis.append(("construction-time-vs-simulation", j, 0, s, c)); break
     return dis
 
-def has_partial_mux(case, vals):
-    nodes, _ = parse_case(case)
-    for (op, par, refs) in nodes:
-        if op == "mux" and (len(refs) - 1) < (1 << vals[refs[0]].w): return True
-        if op == "dynbit" and vals[refs[0]].w < (1 << vals[refs[1]].w): return True
-    return False
+def complete_case(case, fill):
+    """the case with every undefined literal bit replaced by `fill`"""
+    out = []
+    for node in case.split("|")[0].split(";"):
+        t = node.split()
+        if t[0] == "litb" and t[1] in "xX": t[1] = fill
+        elif t[0] == "lits": t[4] = "".join(({"b": "1", "o": "7", "x": "f"}[t[3]] if fill == "1" else "0") if ch in "xX" else ch for ch in t[4])
+        elif t[0] == "undef": t = ["lits", t[1], t[2], "b", (fill * int(t[2])) or "_"]
+        out.append(" ".join(t))
+    return " ; ".join(out)
 
 def cone(case, j):
     """the sub-DAG feeding node j, renumbered (shrinks a failing case)"""
@@ -1155,7 +1186,7 @@ def main():
     rep.cov["traces_validated_against_impl"] = evals
     rep.cov["nodes_compared"] = nodes_cmp
     rep.cov["construction_time_dags"] = ct
-    rep.cov["construction_time_more_defined_than_simulation(partial mux)"] = ct_more_defined
+    rep.cov["construction_time_more_defined_than_simulation"] = ct_more_defined
     rep.cov["rejection_tests"] = rejected
     rep.cov["vectors_with_undefined_operand_bits"] = xvec
     rep.cov["vectors_with_oracle_abstention"] = abstained
@@ -1171,7 +1202,7 @@ def main():
         "ConnectionType BOOL/BITVEC and Node_Signal forwarding nodes are not modelled (value-neutral)",
         "the python oracle abstains ('?') on undefined operands of composite operators (mixed-width signed multiply); those bits are compared model-vs-implementation only",
         "dynamic shift amounts wider than 64 bit, dynamic slices with more than 2^16 options, x[int] with index < -width, upper/lower(BitReduce) beyond the width and ext(x, BitReduce) are outside the generated language (the last one is a recorded known finding)",
-        "construction-time evaluation must equal run-time simulation; only for DAGs containing a mux whose selector can be out of range (table shorter than 2^selwidth) it may be more defined (X -> value, e.g. `b = x[6]; mux(b, {x})`: propagateConstants folds the mux while its selector is still unknown) - counted above",
+        "construction-time evaluation must REFINE the un-postprocessed run-time simulation: equal on every bit the simulation defines; it may be more defined where the simulation is pessimistic (mux with out-of-range or undefined selector resolved by post-processing, e.g. `b = x[6]; mux(b, {x})` or `mux(s,{c,mux(s,{a,c})})` with s = 'x'); such values are checked against the oracle on both completions of the literal X bits; counted above",
         "construction-time evaluation of zero-width expressions is skipped by the harness (ConstructionTimeSimulationContext::getSignal crashes on them); every case contains one extra 1-bit pin because a design of zero-width signals only gives the simulator an empty state vector",
         "layer (a) of C03 (hlim node semantics, NodeSemDefs.v) is checks/C03.py",
     ]
